@@ -3,6 +3,7 @@
   `lake exe driver < ops.txt > model.txt`. Core Lean only (no Mathlib), so it links.
 -/
 import Logg.Drive.C01
+import Logg.Drive.C03
 import Logg.Drive.C11
 import Logg.Drive.C12
 import Logg.Drive.C16
@@ -13,6 +14,8 @@ open Logg
 structure DriverState where
   c01 : GateState := { g := {}, levels := [] }
   c11 : List ModeBits := []
+  c03 : Drive.C03.St := {}
+  c13 : Drive.C03.St := {}
   c12 : List (Int × Int) := []
   c17 : Registry := Bridge.genRegistry
   c16 : Drive.C16.St := {}
@@ -20,6 +23,8 @@ structure DriverState where
 def dispatch (st : DriverState) (line : String) : DriverState × String :=
   match (line.splitOn " ").filter (· ≠ "") with
   | "C01" :: rest => let (s, o) := Drive.C01.step st.c01 rest; ({ st with c01 := s }, o)
+  | "C03" :: rest => let (s, o) := Drive.C03.step st.c03 rest; ({ st with c03 := s }, o)
+  | "C13" :: rest => let (s, o) := Drive.C03.step st.c13 rest; ({ st with c13 := s }, o)
   | "C11" :: rest => let (s, o) := Drive.C11.step st.c11 rest; ({ st with c11 := s }, o)
   | "C12" :: rest => let (s, o) := Drive.C12.step st.c12 rest; ({ st with c12 := s }, o)
   | "C16" :: rest => let (s, o) := Drive.C16.step st.c16 rest; ({ st with c16 := s }, o)
